@@ -213,7 +213,9 @@ func TestC09(t *testing.T) {
 				return true
 			}
 			origKeys, origVals := append([]*ye.Node(nil), jobsNode.Keys...), append([]*ye.Node(nil), jobsNode.Vals...)
-			restoreJobs := func() { jobsNode.Keys, jobsNode.Vals = append([]*ye.Node(nil), origKeys...), append([]*ye.Node(nil), origVals...) }
+			restoreJobs := func() {
+				jobsNode.Keys, jobsNode.Vals = append([]*ye.Node(nil), origKeys...), append([]*ye.Node(nil), origVals...)
+			}
 			// (i) delete unrelated jobs
 			if len(origKeys) > len(keep) {
 				var ks, vs []*ye.Node
